@@ -78,6 +78,12 @@ impl<'a> ReadAttempt<'a> {
         }
     }
 
+    /// Whether this attempt runs the single-consumer protocol (no pin, direct commit)
+    #[inline(always)]
+    pub fn is_single(&self) -> bool {
+        self.state == ReaderState::Single
+    }
+
     #[inline(always)]
     pub fn reload(self) -> ReadAttempt<'a> {
         ReadAttempt {
